@@ -19,6 +19,8 @@ def replay(args, outdir):
             clause = S.codec_clause(a['q'])
         elif lemma == 'L2_field_roundtrip':
             clause = S.field_roundtrip_clause(pysam_mk, QueryNameFlagger, a['field'], S.POOL[a['vi']], S.BIS[a['bi']], S.RQS[a['ri']])
+        elif lemma == 'L5_flagger_sequence':
+            clause = S.flagger_sequence_clause(pysam_mk, QueryNameFlagger, [a['i0'], a['i1'], a['i2']])
         elif lemma == 'L4_pipeline_pools':
             clause = S.pipeline_clause(pysam_mk, QueryNameFlagger, [NLAIII_384w_c8_u3, CELSeq2_c8_u6][a['strategy']], a['ui'], a['qi'], a['li'], a['ii'], a['bi'])
         else:
